@@ -45,3 +45,8 @@ Lemma msgp_full_refuted_by_drop name e v :
 Proof.
   intros Hin Ht Hv Hne Hfull. apply (mp_drop_loses e v [] Ht Hv Hne). apply (Hfull name (TDrop e) Hin). exact Hv.
 Qed.
+
+(* the translator reports no lossy schema in the current tree: the full statement holds (this
+   lemma stops checking, and the check reports it, if a lossy UnmarshalMsg reappears) *)
+Lemma msgp_full_holds : msgp_full_statement.
+Proof. apply msgp_full_if_no_lossy. reflexivity. Qed.
